@@ -38,8 +38,8 @@ members = st.one_of(
     st.tuples(st.just("gkls"), st.tuples(st.integers(2, 3), st.integers(1, 3))),
     st.tuples(st.just("grishagin"), st.sampled_from([1, 2, 3, 4, 17, 33, 54, 55, 70, 99, 100, 42])),
     st.tuples(st.just("shekel4"), st.integers(1, 3)),
-    st.tuples(st.just("rastrigin"), st.integers(1, 6)),
-    st.tuples(st.just("xsquared"), st.integers(1, 6)),
+    st.tuples(st.just("rastrigin"), st.one_of(st.integers(1, 6), st.integers(7, 16))),
+    st.tuples(st.just("xsquared"), st.one_of(st.integers(1, 6), st.integers(7, 16))),
     st.tuples(st.just("stronginC3"), st.none()),
 )
 
@@ -82,7 +82,7 @@ class PureMachine(MachineMixin, RuleBasedStateMachine):
 
     @precondition(lambda self: len(self.pool) > 0)
     @rule(i=st.integers(0, 7), kind=st.sampled_from(["uniform", "uniform", "face", "optimum", "ball", "reuse", "reuse", "near"]),
-          u=st.lists(unit, min_size=6, max_size=6), as_list=st.booleans(), fid=st.integers(-1, 2),
+          u=st.lists(unit, min_size=16, max_size=16), as_list=st.booleans(), fid=st.integers(-1, 2),
           pick=st.integers(0, 10 ** 6), buffered=st.sampled_from([False, False, True]))
     def evaluate(self, i, kind, u, as_list, fid, pick, buffered):
         i %= len(self.pool)
